@@ -76,5 +76,69 @@ where
 //@end
 }
 
+// ------------------------------------------------------------------ Contains kernels
+pub trait Contains<Rhs = Self> {
+    /// rhs is inside self in the DE-9IM sense T*****FF* (interiors meet, nothing of rhs in the exterior of self)
+    spec fn holds(&self, rhs: &Rhs) -> bool;
+    fn contains(&self, rhs: &Rhs) -> (r: bool)
+        ensures r == self.holds(rhs);
+}
+
+impl<T> Contains<Coord<T>> for Rect<T>
+where
+    T: CoordNum,
+{
+    /// interior of the rectangle: strict inequalities
+    open spec fn holds(&self, coord: &Coord<T>) -> bool {
+        rmin(*self).x.val() < coord.x.val() && coord.x.val() < rmax(*self).x.val() && rmin(*self).y.val() < coord.y.val() && coord.y.val() < rmax(*self).y.val()
+    }
+//@fn geo/src/algorithm/contains/rect.rs | impl<T> Contains<Coord<T>> for Rect<T> where T: CoordNum, | contains | id=C02.V.rect_contains_coord
+//@before 1 `coord.x > self.min().x`
+        proof {
+            T::ax_obeys();
+            T::ax_cmp(coord.x, self.min.x); T::ax_cmp(coord.y, self.min.y); T::ax_cmp(coord.x, self.max.x); T::ax_cmp(coord.y, self.max.y);
+        }
+//@end
+}
+
+impl<T> Contains<Rect<T>> for Rect<T>
+where
+    T: CoordNum,
+{
+    /// (for non-degenerate rectangles) other is a subset of self
+    open spec fn holds(&self, other: &Rect<T>) -> bool {
+        rmin(*self).x.val() <= rmin(*other).x.val() && rmax(*other).x.val() <= rmax(*self).x.val()
+        && rmin(*self).y.val() <= rmin(*other).y.val() && rmax(*other).y.val() <= rmax(*self).y.val()
+    }
+//@fn geo/src/algorithm/contains/rect.rs | impl<T> Contains<Rect<T>> for Rect<T> where T: CoordNum, | contains | id=C02.V.rect_contains_rect
+//@before 1 `self.min().x <= other.min().x`
+        proof {
+            T::ax_obeys();
+            T::ax_cmp(self.min.x, other.min.x); T::ax_cmp(self.max.x, other.max.x); T::ax_cmp(self.min.y, other.min.y); T::ax_cmp(self.max.y, other.max.y);
+        }
+//@end
+}
+
+impl<T> Contains<Coord<T>> for Line<T>
+where
+    T: GeoNum,
+{
+    /// interior of a segment = the segment minus its end points; a degenerate line is a single (interior) point
+    open spec fn holds(&self, coord: &Coord<T>) -> bool {
+        if pt(self.start) == pt(self.end) { pt(*coord) == pt(self.start) }
+        else { on_segment(pt(*coord), pt(self.start), pt(self.end)) && pt(*coord) != pt(self.start) && pt(*coord) != pt(self.end) }
+    }
+//@fn geo/src/algorithm/contains/line.rs | impl<T> Contains<Coord<T>> for Line<T> where T: GeoNum, | contains | id=C02.V.line_contains_coord
+//@before 1 `if self.start == self.end {`
+        proof {
+            T::ax_obeys();
+            T::ax_cmp(self.start.x, self.end.x); T::ax_cmp(self.start.y, self.end.y);
+            T::ax_cmp(self.start.x, coord.x); T::ax_cmp(self.start.y, coord.y);
+            T::ax_cmp(coord.x, self.start.x); T::ax_cmp(coord.y, self.start.y);
+            T::ax_cmp(coord.x, self.end.x); T::ax_cmp(coord.y, self.end.y);
+        }
+//@end
+}
+
 } // verus!
 fn main() {}
